@@ -528,7 +528,15 @@ class LODerived(LOPlain):
         self.b = b + 0.0
 
 
-LO_KINDS = [LOPlain, LOWithRmv, LOFull, LOList, LOAlias, LODerived]
+def LODense(W, b, hermitian=True):
+    """a dense matrix of the caller wrapped with LinearOperator.m: the operator holds the caller's tensor itself"""
+    mat = spd_matrix(W, b).detach().clone()
+    if W.requires_grad and b.requires_grad:
+        mat.requires_grad_()
+    return LinearOperator.m(mat, is_hermitian=True)
+
+
+LO_KINDS = [LOPlain, LOWithRmv, LOFull, LOList, LOAlias, LODerived, LODense]
 
 
 def make_values(seed: int, n: int):
